@@ -18,7 +18,8 @@ Check(t) ==
     ELSE IF t.build_exc # "" THEN "construction-failed:" \o t.build_exc
     ELSE LET s == S(t)  P == t.P IN
     IF \E i \in DOMAIN t.calls : t.calls[i].exc # "" THEN "sampling-failed:" \o (t.calls[CHOOSE i \in DOMAIN t.calls : t.calls[i].exc # ""].exc)
-    ELSE LET c1 == Clause(s, t.calls[1].rows, P)  c2 == Clause(s, t.calls[2].rows, P) IN
+    \* the second call has other parameter values (a static sampler keeps serving the first table)
+    ELSE LET c1 == Clause(s, t.calls[1].rows, P)  c2 == Clause(s, t.calls[2].rows, IF IsStatic(s) THEN P ELSE t.P2) IN
     IF c1 # "ok" THEN c1
     ELSE IF c2 # "ok" THEN "second-call:" \o c2
     ELSE IF IsStatic(s) /\ ~SameTable(t.calls[1].rows, t.calls[2].rows) THEN "static-sampler-changed"
